@@ -70,7 +70,13 @@ use crate::value_flags::FlagsForSymbol as _;
 use crate::value_flags::PerSymbolFlags;
 use crate::value_flags::ValueFlags;
 use crate::verbose_timing_phase;
+#[cfg(feature = "verif")]
+use crate::verif::sync::ArrayQueue;
+#[cfg(not(feature = "verif"))]
 use crossbeam_queue::ArrayQueue;
+#[cfg(feature = "verif")]
+use crate::verif::sync::SegQueue;
+#[cfg(not(feature = "verif"))]
 use crossbeam_queue::SegQueue;
 use hashbrown::HashMap;
 use itertools::Itertools;
@@ -94,10 +100,16 @@ use std::mem::size_of;
 use std::mem::swap;
 use std::mem::take;
 use std::num::NonZeroU32;
+#[cfg(feature = "verif")]
+use crate::verif::sync::Mutex;
+#[cfg(not(feature = "verif"))]
 use std::sync::Mutex;
 use std::sync::atomic;
 use std::sync::atomic::AtomicBool;
 use std::sync::atomic::AtomicU64;
+#[cfg(feature = "verif")]
+use crate::verif::sync::AtomicUsize;
+#[cfg(not(feature = "verif"))]
 use std::sync::atomic::AtomicUsize;
 use std::sync::atomic::Ordering::Relaxed;
 
@@ -2054,9 +2066,15 @@ fn find_required_sections<'data, A: Arch>(
     };
     let resources_ref = &resources;
 
+    #[cfg(feature = "verif")]
+    let verif_region = crate::verif::sched::region_begin("gc");
     rayon::in_place_scope(|scope| {
         queue_initial_group_processing::<A>(groups_in, symbol_db, resources_ref, scope);
+        #[cfg(feature = "verif")]
+        crate::verif::sched::scope_wait();
     });
+    #[cfg(feature = "verif")]
+    drop(verif_region);
 
     let mut errors: Vec<Error> = take(resources.errors.lock().unwrap().as_mut());
     // TODO: Figure out good way to report more than one error.
@@ -2107,7 +2125,11 @@ fn queue_initial_group_processing<'data, 'scope, A: Arch>(
         .enumerate()
         .zip(&symbol_db.groups)
         .for_each(|((group_index, resolved), group)| {
+            #[cfg(feature = "verif")]
+            let verif_ticket = crate::verif::sched::ticket("activate");
             scope.spawn(move |scope| {
+                #[cfg(feature = "verif")]
+                let _verif_task = crate::verif::sched::task_begin(verif_ticket);
                 verbose_timing_phase!("Activate group");
                 let inputs = GroupActivationInputs {
                     resolved,
@@ -2122,6 +2144,16 @@ fn queue_initial_group_processing<'data, 'scope, A: Arch>(
 fn unwrap_worker_states<'data, P: Platform>(
     worker_slots: &[Mutex<WorkerSlot<'data, P>>],
 ) -> Vec<GroupState<'data, P>> {
+    #[cfg(feature = "verif")]
+    for (i, w) in worker_slots.iter().enumerate() {
+        let slot = w.lock().unwrap();
+        crate::verif::sched::event(
+            "final_slot",
+            i as u64,
+            slot.work.len() as u64,
+            u64::from(slot.worker.is_some()),
+        );
+    }
     worker_slots
         .iter()
         .filter_map(|w| w.lock().unwrap().worker.take())
@@ -2136,8 +2168,17 @@ impl<'data, P: Platform> GroupState<'data, P> {
         resources: &'scope GraphResources<'data, '_, P>,
         scope: &Scope<'scope>,
     ) {
+        #[cfg(feature = "verif")]
+        let mut verif_in_group = crate::verif::GroupInterval::enter(self.queue.index);
         loop {
             while let Some(work_item) = self.queue.local_work.pop() {
+                #[cfg(feature = "verif")]
+                crate::verif::sched::event(
+                    "handled",
+                    self.queue.index as u64,
+                    crate::verif::sched::hash_debug(&work_item),
+                    0,
+                );
                 let file_id = work_item.file_id(resources.symbol_db);
                 let file = &mut self.files[file_id.file()];
                 if let Err(error) = file.do_work::<A>(
@@ -2154,10 +2195,16 @@ impl<'data, P: Platform> GroupState<'data, P> {
             {
                 let mut slot = resources.worker_slots[self.queue.index].lock().unwrap();
                 if slot.work.is_empty() {
+                    #[cfg(feature = "verif")]
+                    crate::verif::slot_state(self.queue.index, 0, true);
+                    #[cfg(feature = "verif")]
+                    verif_in_group.exit();
                     slot.worker = Some(self);
                     return;
                 }
                 swap(&mut slot.work, &mut self.queue.local_work);
+                #[cfg(feature = "verif")]
+                crate::verif::slot_state(self.queue.index, 0, false);
             };
         }
     }
@@ -2327,9 +2374,22 @@ impl<'data, P: Platform> GraphResources<'data, '_, P> {
             let mut slot = self.worker_slots[file_id.group()].lock().unwrap();
             worker = slot.worker.take();
             slot.work.push(work);
+            #[cfg(feature = "verif")]
+            crate::verif::slot_state(file_id.group(), slot.work.len(), false);
         };
+        #[cfg(feature = "verif")]
+        crate::verif::sched::event(
+            "sent",
+            file_id.group() as u64,
+            crate::verif::sched::hash_debug(&work),
+            u64::from(worker.is_some()),
+        );
         if let Some(worker) = worker {
+            #[cfg(feature = "verif")]
+            let verif_ticket = crate::verif::sched::ticket("wake");
             scope.spawn(|scope| {
+                #[cfg(feature = "verif")]
+                let _verif_task = crate::verif::sched::task_begin(verif_ticket);
                 verbose_timing_phase!("Work with object");
                 worker.do_pending_work::<A>(resources, scope);
             });
